@@ -23,12 +23,12 @@ _FILE = None
 
 def _file_path():
     global _FILE
-    if _FILE is None or not os.path.isdir(os.path.dirname(_FILE)):
+    if _FILE is None or _FILE[0] != os.getpid() or not os.path.isdir(os.path.dirname(_FILE[1])):      # one path per process
         import atexit, shutil
         d = tempfile.mkdtemp(prefix='mrm-c08-file-')
         atexit.register(shutil.rmtree, d, True)
-        _FILE = os.path.join(d, 'incoming.mos.xml')
-    return _FILE
+        _FILE = (os.getpid(), os.path.join(d, 'incoming.mos.xml'))
+    return _FILE[1]
 
 
 def classify_impl(source, how='string', filt='ignore'):
